@@ -1606,10 +1606,10 @@ class Parameter(_ParameterBase):
             # accepted, so that a rejected assignment leaves the links alone
             def update_ref():
                 if ref is not None:
-                    self.owner.param._update_ref(name, ref)
+                    obj.param._update_ref(name, ref)
                 elif name in refs and not syncing:
                     # a plain value ends the link: also stop watching its sources
-                    self.owner.param._update_ref(name, None)
+                    obj.param._update_ref(name, None)
             if is_async or val is Undefined:
                 update_ref()
                 return
